@@ -214,16 +214,25 @@ func ruleC19Load(cx *Ctx) {
 	filterOK := false
 	allInstrs(fn, func(in ssa.Instruction) {
 		b, ok := in.(*ssa.BinOp)
-		if !ok || !entryFieldLoad(b.X, "ExpiresAtNano") || b.Y != ssa.Value(now) {
+		if !ok {
 			return
 		}
-		if b.Op != token.LEQ && b.Op != token.GTR {
+		// deadline <= now, written either way round
+		op := b.Op
+		switch {
+		case entryFieldLoad(b.X, "ExpiresAtNano") && b.Y == ssa.Value(now):
+		case entryFieldLoad(b.Y, "ExpiresAtNano") && b.X == ssa.Value(now):
+			op = map[token.Token]token.Token{token.GEQ: token.LEQ, token.LSS: token.GTR, token.LEQ: token.GEQ, token.GTR: token.LSS}[b.Op]
+		default:
+			return
+		}
+		if op != token.LEQ && op != token.GTR {
 			return
 		}
 		for _, i := range ifsOnConj(b) {
 			// the "expired" edge must not reach Set in this iteration: it goes back to the loop head
 			expiredIdx := i.TrueIdx
-			if b.Op == token.GTR {
+			if op == token.GTR {
 				expiredIdx = 1 - i.TrueIdx
 			}
 			tgt := i.If.Block().Succs[expiredIdx]
@@ -330,6 +339,20 @@ func ruleC19Load(cx *Ctx) {
 			if x, ok := max1Of(a[1]); ok {
 				if b, ok := stripConv(x).(*ssa.BinOp); ok && b.Op == token.SUB && entryFieldLoad(b.X, rs.field) && b.Y == ssa.Value(now) {
 					durOK = true
+				}
+			}
+		}
+		if !durOK && len(a) == 2 {
+			// the same formula behind a helper (remaining(deadline, now)): compared as a term with helpers inlined
+			tb := newInliningTermBuilder()
+			t := tb.of(a[1])
+			nowT := tb.of(now).String()
+			if t.Op == "builtin:max" && len(t.Args) == 2 {
+				for i := 0; i < 2; i++ {
+					one, d := t.Args[i], t.Args[1-i]
+					if one.isConst() && one.C == 1 && d.Op == "-" && len(d.Args) == 2 && strings.Contains(d.Args[0].String(), "field:"+rs.field) && d.Args[1].String() == nowT {
+						durOK = true
+					}
 				}
 			}
 		}
